@@ -47,6 +47,7 @@ type Contract struct {
 	Props      []string // property ids this contract serves (from //@ props)
 	Counts     [][2]string // ghost call counters: (name, callee pattern)
 	Shared     []string    // locations other goroutines may write: havoced at blocking operations
+	HavocPreserves []string // struct types (pkg.Type) assumed not to be written by uncontracted callees
 	// resolved
 	CalleeKey string
 	// synthetic param list text (names) in order
@@ -234,6 +235,10 @@ func parseContractFile(path string) (*ContractFile, error) {
 					for _, m := range splitTop(rest, ',') {
 						cur.PureParams = append(cur.PureParams, strings.TrimSpace(m))
 					}
+				}
+			case "havoc_preserves":
+				for _, m := range splitTop(rest, ',') {
+					cur.HavocPreserves = append(cur.HavocPreserves, strings.TrimSpace(m))
 				}
 			case "shared":
 				for _, m := range splitTop(rest, ',') {
